@@ -26,9 +26,9 @@ ID = 'C20'
 HASHSEED_IS_VIOLATION = False
 
 TIERS = {
-    'quick': {'runs': 18000, 'replica_runs': 300, 'hash_seeds': [1, 4242], 'timeout_s': 420, 'shrink_s': 40},
+    'quick': {'runs': 18000, 'replica_runs': 300, 'hash_seeds': [1, 4242], 'timeout_s': 1200, 'shrink_s': 40},
     'thorough': {'runs': 120000, 'replica_runs': 1200, 'hash_seeds': [1, 7, 99, 4242, 31337],
-                 'timeout_s': 3000, 'shrink_s': 120},
+                 'timeout_s': 9000, 'shrink_s': 120},
 }
 
 RULE = ('Each run plans one history of tool invocations: a stream of 1-4 generated well-formed graphs with metadata, '
